@@ -150,6 +150,8 @@ type c11StopSeen struct {
 	s       network.Stream
 	srcOK   bool
 	limitOK bool
+	src     peer.ID // source named in the stop message
+	dst     int     // destination host that got the stop stream
 }
 
 func (e *c11Env) cover(name string) { e.out.Cover(name) }
@@ -207,7 +209,7 @@ func (e *c11Env) setup() error {
 	e.hosts = make([]host.Host, c.n+1)
 	e.ids = make([]peer.ID, c.n+1)
 	e.conns = make([][2]network.Conn, c.n+1)
-	e.stopSeen = make(chan *c11StopSeen, 4)
+	e.stopSeen = make(chan *c11StopSeen, 64)
 	for i := 1; i <= c.n; i++ {
 		k, _ := c11Key()
 		h, err := e.mn.AddPeer(k, e.addrOf(i, 0))
